@@ -1206,7 +1206,7 @@ class Facts:
         host = self.bodies.get(body.parent) or self.bodies.get(body.root)
         return bool(host) and body.path in (host.raw.get('inlined') or [])
 
-    def view(self, path, inline_also=()):
+    def view(self, path, inline_also=(), through_traits=False):
         """the body `path` with the named (reference) functions inlined into it as well: lets a rule state an
         obligation on an entry point independently of whether a small wrapper exists between it and the callee"""
         b = self.bodies.get(path)
@@ -1215,11 +1215,11 @@ class Facts:
         names = {n for n in inline_also if n in self.bodies}
         if not names:
             return b
-        key = (path, tuple(sorted(names)))
+        key = (path, tuple(sorted(names)), through_traits)
         if key not in self._views:
             import inline
             raws = {p: x.raw for p, x in self.bodies.items()}
-            self._views[key] = Body(inline.inline_into(b.raw, raws, lambda p: p in names, through_traits=False), self)
+            self._views[key] = Body(inline.inline_into(b.raw, raws, lambda p: p in names, through_traits=through_traits), self)
         return self._views[key]
 
     # ---- lookup ------------------------------------------------------------
